@@ -3,6 +3,7 @@ import Prom.Lemmas.Histogram
 import Prom.Lemmas.HistCuts
 import Prom.Lemmas.HistTags
 import Prom.Lemmas.HistSemantics
+import Prom.Lemmas.HandoffHist
 /-
 C02 — Every histogram snapshot is one consistent cut of the observations.
 
@@ -262,6 +263,119 @@ theorem cumulative_counts_are_le_counts {bounds : List UInt64} (hs : Prom.Strict
     ((List.range (i + 1)).map fun c => tot (valss.map (HM.obsOfVals bounds)) c).sum =
       (valss.flatten.countP (fun v => Prom.f64Le (Conc.f64OfInt v) b) : Int) :=
   HM.cut_cum hs valss i b hb
+
+/-! ### the release/acquire hand-off (what the memory model adds to the SC interleaving)
+
+The model and the replay machine interpret a trace as a sequentially consistent interleaving. The
+theorems above therefore speak about the real implementation only if the observer's Relaxed writes
+to the cold shard HAPPEN-BEFORE the collector's swaps of those cells. `Prom/Lemmas/Handoff.lean`
+defines `po`, `rf`, release sequences, `sw` and `hb = (po ∪ sw)⁺` on a trace (trace order =
+modification order of every location), and the theorems below show that the happens-before edge the
+protocol needs exists given exactly the orderings the replay machine checks, and does not exist
+without them. -/
+
+open Prom.Handoff in
+/-- **handoff_hb** — message passing through a counter that is only ever modified by
+    read-modify-writes. If every write to location `c` in the trace is an RMW, then a release write
+    (RMW) to `c` at `p` synchronizes with EVERY later acquire read (or RMW) of `c` at `a` — whatever
+    other RMWs hit `c` in between, they continue the release sequence headed by `p` — and so
+    everything the publishing thread did before `p` happens-before everything the acquiring thread
+    does after `a`. Role: with `c` the cold shard's count, `p` an observer's publish and `a` the
+    collector's successful spin, the observer's Relaxed bucket / sum writes happen-before the
+    collector's swaps of the cold cells. -/
+theorem handoff_hb {tr : List MEv} {c : String} {p a : Nat} {ep ea : MEv}
+    (hc : ∀ (k : Nat) (e : MEv), tr[k]? = some e → e.loc = c → e.wr = true → e.rd = true)
+    (hpa : p < a)
+    (hp : tr[p]? = some ep) (hpl : ep.loc = c) (hpw : ep.wr = true) (hprel : ep.rel = true)
+    (ha : tr[a]? = some ea) (hal : ea.loc = c) (hard : ea.rd = true) (haacq : ea.acq = true) :
+    sw tr p a ∧
+    (∀ e f, po tr e p → po tr a f → hb tr e f) ∧
+    (∀ e, po tr e p → hb tr e a) ∧ (∀ f, po tr a f → hb tr p f) :=
+  Handoff.handoff_hb hc hpa hp hpl hpw hprel ha hal hard haacq
+
+open Prom.Handoff in
+/-- **handoff_needs_release** — the Release on the publish is necessary. In the four-event trace
+    `trRelaxedPublish` (observer: `fetch_add` Relaxed on a bucket, then the publish `fetch_add` on the
+    count with RELAXED instead of Release; collector: successful spin compare-exchange Acquire on the
+    count, then `swap` AcqRel of the bucket — all other orderings as in the real code) the spin reads
+    the publish and the swap reads the bucket write in the interleaving, yet happens-before is exactly
+    program order (`0 → 1`, `2 → 3`): the bucket write does NOT happen-before the swap. Role: the
+    replay machine's check `ordGe e.ord "Release"` on the publish is not decoration — a run that
+    passes it with a weaker ordering would not be covered by the SC model. -/
+theorem handoff_needs_release :
+    rf trRelaxedPublish 2 = some 1 ∧ rf trRelaxedPublish 3 = some 0 ∧
+    (∀ i j, hb trRelaxedPublish i j ↔ (i = 0 ∧ j = 1) ∨ (i = 2 ∧ j = 3)) ∧
+    ¬ hb trRelaxedPublish 0 3 :=
+  Handoff.handoff_needs_release
+
+open Prom.Handoff in
+/-- **handoff_needs_acquire** — the Acquire on the spin is necessary: the same trace with a Release
+    publish and a RELAXED spin (`trRelaxedSpin`) again has happens-before = program order, so the
+    bucket write does not happen-before the swap. Role: the machine's check `ordGe e.ord "Acquire"`
+    on the spin is needed. (`Handoff.handoff_good`: with both orderings in place the same four events
+    do have `hb 0 3`.) -/
+theorem handoff_needs_acquire :
+    rf trRelaxedSpin 2 = some 1 ∧ rf trRelaxedSpin 3 = some 0 ∧
+    (∀ i j, hb trRelaxedSpin i j ↔ (i = 0 ∧ j = 1) ∨ (i = 2 ∧ j = 3)) ∧
+    ¬ hb trRelaxedSpin 0 3 :=
+  Handoff.handoff_needs_acquire
+
+/-- **count_cells_only_rmw** — every event the replay machine accepts on the count cell of a shard is
+    a `fetch_add` ("A") or a compare-exchange ("C") — never a store or a swap — and a compare-exchange
+    there (only the collector's spin is one) has an ordering at least Acquire; as memory events they
+    read whenever they write. Role: this is the hypothesis "every write to `c` is an RMW" of
+    `handoff_hb` for `c` = a shard's count, so the release sequence headed by a publish is never cut
+    (by another observer's publish, the collector's reset in the spin, or its `addCount`). -/
+theorem count_cells_only_rmw {k : Nat} {c : Hp.St} {cuts : HM.Cuts} {e : Conc.Ev} {pc : HM.Pc}
+    {r : HM.Res × HM.Cuts} {b : Bool}
+    (h : HM.evStep k c cuts e pc = .ok r) (hl : HM.parseLoc e.loc = .cnt b) :
+    (e.k = "A" ∨ e.k = "C") ∧ (e.k = "C" → Conc.ordGe e.ord "Acquire" = true) ∧
+    (Handoff.ofEv e).rd = true :=
+  ⟨(HM.evStep_cnt_kind h hl).1, (HM.evStep_cnt_kind h hl).2,
+    (Handoff.ofEv_rmw_of_kind (HM.evStep_cnt_kind h hl).1).1⟩
+
+/-- **publish_is_release_spin_is_acquire** — the orderings the replay machine enforces on the two ends
+    of the hand-off. (1) The event accepted from an observer that has applied all its updates is a
+    `fetch_add` on the count of its shard with an ordering at least Release: a release RMW. (2) The
+    event accepted from a collector that has flipped is a compare-exchange on the count of the cold
+    shard with an ordering at least Acquire: it reads, and when it succeeds it is an acquire RMW.
+    (3) "at least Release" / "at least Acquire" coincide with release / acquire semantics on every
+    ordering string, in particular the five real ones. Role: the hypotheses on `p` and `a` of
+    `handoff_hb` hold for the publish and the successful spin of every accepted trace. -/
+theorem publish_is_release_spin_is_acquire {k : Nat} {c : Hp.St} {cuts : HM.Cuts} {e : Conc.Ev} {pc : HM.Pc}
+    {r : HM.Res × HM.Cuts} (h : HM.evStep k c cuts e pc = .ok r) :
+    (∀ o b, pc.task = some (.obsRun o b []) →
+      e.k = "A" ∧ HM.parseLoc e.loc = .cnt b ∧ Conc.ordGe e.ord "Release" = true ∧
+      (Handoff.ofEv e).rd = true ∧ (Handoff.ofEv e).wr = true ∧ (Handoff.ofEv e).rel = true) ∧
+    (∀ cold ov S, pc.task = some (.colSpin cold ov S) →
+      e.k = "C" ∧ HM.parseLoc e.loc = .cnt cold ∧ Conc.ordGe e.ord "Acquire" = true ∧
+      (Handoff.ofEv e).rd = true ∧ (e.ok = true → (Handoff.ofEv e).wr = true ∧ (Handoff.ofEv e).acq = true)) ∧
+    (∀ o ∈ ["Relaxed", "Acquire", "Release", "AcqRel", "SeqCst"],
+      (Conc.ordGe o "Release" = true ↔ o = "Release" ∨ o = "AcqRel" ∨ o = "SeqCst") ∧
+      (Conc.ordGe o "Acquire" = true ↔ o = "Acquire" ∨ o = "AcqRel" ∨ o = "SeqCst") ∧
+      (Conc.ordGe o "Release" = true → Handoff.relOrd o = true) ∧
+      (Conc.ordGe o "Acquire" = true → Handoff.acqOrd o = true)) :=
+  ⟨fun _ _ ht => HM.evStep_publish_release ht h, fun _ _ _ ht => HM.evStep_spin_acquire ht h,
+    Handoff.ordGe_table⟩
+
+open Prom.Handoff in
+/-- **replayed_publish_happens_before_collect** — the three facts combined, for whole traces: in the
+    memory-event trace (`HM.memTrace`) of ANY trace the histogram machine replays without divergence,
+    a release write `p` to a shard's count cell (every observer publish is one) synchronizes with every
+    later successful compare-exchange `a` on that cell (every successful collector spin), and every
+    event program-ordered before `p` happens-before every event program-ordered after `a`. -/
+theorem replayed_publish_happens_before_collect {tr : List Conc.Item} {s s' : HM.St} {n : Nat}
+    (h : Conc.runItems HM.item s tr n = .ok s')
+    {p a : Nat} {ep ea : Conc.Ev} {b : Bool} (hpa : p < a)
+    (hp : (HM.evsOf tr)[p]? = some ep) (ha : (HM.evsOf tr)[a]? = some ea)
+    (hal : HM.parseLoc ea.loc = .cnt b) (hak : ea.k = "C") (haok : ea.ok = true)
+    (hpl : ep.loc = ea.loc) (hpw : (ofEv ep).wr = true) (hprel : (ofEv ep).rel = true) :
+    sw (HM.memTrace tr) p a ∧
+    (∀ e f, po (HM.memTrace tr) e p → po (HM.memTrace tr) a f → hb (HM.memTrace tr) e f) ∧
+    (∀ e, po (HM.memTrace tr) e p → hb (HM.memTrace tr) e a) ∧
+    (∀ f, po (HM.memTrace tr) a f → hb (HM.memTrace tr) p f) :=
+  HM.replay_handoff h hpa hp ha hal hak haok hpl hpw hprel
+
 
 /-- non-vacuity: a reachable state with one observer and one collector that has returned a snapshot
     is built by `Reach.step`; here the simplest instance — the initial state is reachable and the
